@@ -158,7 +158,8 @@ def jobs(tier, seed=0):
     # a country whose table row has dairy herds but no national milk figure
     res.append(dict(cc="CYP", preset="net_nuclear_winter", options=copy.deepcopy(P["net_nuclear_winter"])))
     # a short horizon that ends while crops are still depressed, with demand alive in the last month
-    for cc in ("USA", "DNK"):
+    # (... USA, DNK: no harvest in the last two months; ARG: a harvest in both)
+    for cc in ("USA", "DNK", "ARG"):
         res.append(dict(cc=cc, preset="nw_48m", options=copy.deepcopy(V["nw_48m"])))
     # feed and biofuel demand overridden to nothing
     res.append(dict(cc="ARG", preset="nw_zero_demand", options=copy.deepcopy(V["nw_zero_demand"])))
